@@ -256,14 +256,14 @@ def gen_pr(rng, tier):
             "ones": rng.random() < .4}
 
 
-def ref_partial(data, nz):
+def ref_partial(data, nz, intercept=True):
     import numpy as np
     from scipy import stats
     A = np.asarray(data, dtype=float)
     x, y = A[:, 0], A[:, 1]
     if nz == 0:
         return stats.pearsonr(x, y)
-    Zm = np.column_stack([np.ones(len(A)), A[:, 2:]])
+    Zm = np.column_stack([np.ones(len(A)), A[:, 2:]]) if intercept else A[:, 2:]
     rx = x - Zm @ np.linalg.lstsq(Zm, x, rcond=None)[0]
     ry = y - Zm @ np.linalg.lstsq(Zm, y, rcond=None)[0]
     return stats.pearsonr(rx, ry)
@@ -307,11 +307,19 @@ def run_pr(case, drv):
         if abs(c2 - c3) > 1e-7 or abs(p2 - p3) > 1e-7:
             return fail({"msg": f"pearsonr(X, Y | Z + ones) changes when X and Y are shifted: ({c2}, {p2}) vs ({c3}, {p3})", "kind": "with_ones_shift",
                          "nz": nz}, **tags)
+    def no_icpt(frame, c, p):
+        # is (c, p) the Pearson test on residuals of a regression WITHOUT intercept (what the recorded finding computes)?
+        try:
+            nc, np_ = ref_partial(frame[cols].values.tolist(), nz, intercept=False)
+            return bool(abs(c - nc) <= 1e-7 and abs(p - np_) <= 1e-7)
+        except Exception:
+            return False
     if abs(c0 - rc) > 1e-7 or abs(p0 - rp) > 1e-7:
         return fail({"msg": f"pearsonr = ({c0}, {p0}); Pearson test on least-squares residuals (with intercept) = ({rc}, {rp})", "kind": "reference",
-                     "nz": nz}, **tags)
+                     "nz": nz, "equals_no_intercept": nz > 0 and no_icpt(df, c0, p0)}, **tags)
     if abs(c0 - c1) > 1e-7 or abs(p0 - p1) > 1e-7:
-        return fail({"msg": f"pearsonr changes under shifting / positive rescaling: ({c0}, {p0}) vs ({c1}, {p1})", "kind": "affine", "nz": nz}, **tags)
+        return fail({"msg": f"pearsonr changes under shifting / positive rescaling: ({c0}, {p0}) vs ({c1}, {p1})", "kind": "affine", "nz": nz,
+                     "equals_no_intercept": nz > 0 and no_icpt(df, c0, p0) and no_icpt(df2, c1, p1)}, **tags)
     return ok(nontrivial=nz > 0, **tags)
 
 
